@@ -36,6 +36,12 @@ def _geo(c):
     o["sw4"] = enc.arr(sw.node_weights, 10**4)
     o["swtot4"] = enc.num(sw.total_node_weight, 10**4)
     o["awc6"] = enc.arr(net.area_weighted_connectivity())
+    # the area-weighted connectivity is defined by the cosines of latitude, whatever n.s.i. weights are in force
+    o["awc6_irr"] = enc.arr(irr.area_weighted_connectivity())
+    o["awc6_none"] = enc.arr(GeoNetwork(g, adjacency=A, node_weight_type=None,
+                                        silence_level=3).area_weighted_connectivity())
+    o["awc6_in"] = enc.arr(irr.inarea_weighted_connectivity())
+    o["awc6_out"] = enc.arr(sw.outarea_weighted_connectivity())
     o["maxld6"] = enc.arr(net.max_link_distance())
     # the grid's distances as they are served after the network has been analysed
     for q in (net.local_geographical_clustering, net.average_link_distance, net.total_link_distance,
@@ -71,6 +77,9 @@ def _euc(c):
         except Exception:
             pass
     o["d3b"] = enc.arr(g.euclidean_distance(), 1000)
+    # the same points translated by 4096 in every coordinate (map coordinates far from the origin)
+    far = Grid(np.arange(3.0), (pts + 4096.0).T.copy(), silence_level=3)
+    o["d3far"] = enc.arr(far.euclidean_distance(), 1000)
     # nearest-node lookup at integer query points (squared distances are exact)
     dim = pts.shape[1]
     qs = [[int(pts[k % len(pts)][j]) + ((k + j) % 3) - 1 for j in range(dim)] for k in range(min(6, 2 * len(pts)))]
